@@ -164,6 +164,18 @@ class _Fold(ast.NodeTransformer):
                     return node
         return node
 
+    def visit_BoolOp(self, node):
+        self.generic_visit(node)
+        # `x or <const>`  ==  `x if x else <const>` for a side-effect free x
+        if isinstance(node.op, ast.Or) and len(node.values) == 2 and \
+                isinstance(node.values[1], ast.Constant) and _simple(
+                    node.values[0]) and not isinstance(node.values[0],
+                                                       ast.Constant):
+            return ast.copy_location(ast.IfExp(
+                test=node.values[0], body=copy.deepcopy(node.values[0]),
+                orelse=node.values[1]), node)
+        return node
+
     def visit_Call(self, node):
         self.generic_visit(node)
         if isinstance(node.func, ast.Name) and node.func.id == 'getattr' \
@@ -175,6 +187,85 @@ class _Fold(ast.NodeTransformer):
                 ast.Attribute(value=node.args[0], attr=node.args[1].value,
                               ctx=ast.Load()), node)
         return node
+
+
+def _dict_items(e):
+    """[(key, value)] of a dict literal / dict(k=v) call with constant
+    string keys, else None."""
+    if isinstance(e, ast.Dict) and all(
+            isinstance(k, ast.Constant) and isinstance(k.value, str)
+            for k in e.keys):
+        return [(k.value, v) for k, v in zip(e.keys, e.values)]
+    if isinstance(e, ast.Call) and isinstance(e.func, ast.Name) and \
+            e.func.id == 'dict' and not e.args and all(
+                k.arg for k in e.keywords):
+        return [(k.arg, k.value) for k in e.keywords]
+    return None
+
+
+def _sink_kwargs(body):
+    """`if c: spec = dict(a=1)  else: spec = dict(b=2)` followed by
+    `f(**spec, z=3)`  ->  the call is moved into both branches with the
+    keywords written out."""
+    out = []
+    i = 0
+    while i < len(body):
+        st = body[i]
+        for fld in ('body', 'orelse', 'finalbody'):
+            blk = getattr(st, fld, None)
+            if isinstance(blk, list) and blk and isinstance(blk[0],
+                                                            ast.stmt):
+                setattr(st, fld, _sink_kwargs(blk))
+        nxt = body[i + 1] if i + 1 < len(body) else None
+        done = False
+        if isinstance(st, ast.If) and st.orelse and nxt is not None:
+            calls = [c for c in ast.walk(nxt) if isinstance(c, ast.Call) and
+                     any(k.arg is None and isinstance(k.value, ast.Name)
+                         for k in c.keywords)]
+            if len(calls) == 1 and isinstance(nxt, (ast.Expr, ast.Assign)):
+                nm = [k.value.id for k in calls[0].keywords
+                      if k.arg is None][0]
+
+                def last_assign(blk):
+                    if blk and isinstance(blk[-1], ast.Assign) and \
+                            len(blk[-1].targets) == 1 and isinstance(
+                                blk[-1].targets[0], ast.Name) and \
+                            blk[-1].targets[0].id == nm:
+                        return _dict_items(blk[-1].value)
+                    return None
+                ia, ib = last_assign(st.body), last_assign(st.orelse)
+                used_later = any(
+                    isinstance(x, ast.Name) and x.id == nm
+                    for later in body[i + 2:] for x in ast.walk(later))
+                if ia is not None and ib is not None and not used_later:
+                    def specialise(items):
+                        new = copy.deepcopy(nxt)
+                        for c in ast.walk(new):
+                            if isinstance(c, ast.Call) and any(
+                                    k.arg is None and isinstance(
+                                        k.value, ast.Name) and
+                                    k.value.id == nm for k in c.keywords):
+                                kws = []
+                                for k in c.keywords:
+                                    if k.arg is None and isinstance(
+                                            k.value, ast.Name) and \
+                                            k.value.id == nm:
+                                        kws += [ast.keyword(
+                                            arg=a, value=copy.deepcopy(v))
+                                            for a, v in items]
+                                    else:
+                                        kws.append(k)
+                                c.keywords = kws
+                        return new
+                    st.body = st.body[:-1] + [specialise(ia)]
+                    st.orelse = st.orelse[:-1] + [specialise(ib)]
+                    out.append(st)
+                    i += 2
+                    done = True
+        if not done:
+            out.append(st)
+            i += 1
+    return out
 
 
 def normalize(func, module_tree=None, keep=None):
@@ -205,6 +296,7 @@ def normalize(func, module_tree=None, keep=None):
     un = _Unroll(keep)
     f = un.visit(f)
     f = _Fold().visit(f)
+    f.body = _sink_kwargs(f.body)
     ast.fix_missing_locations(f)
     return f
 
@@ -458,6 +550,25 @@ def inline_new_helpers(tree, rel):
                     if isinstance(x, ast.FunctionDef) and x is not n:
                         x.body = inl.rewrite_block(x.body)
     apply(tree.body)
+    # expression helpers (one `return <expr>`) are also inlined where they
+    # are used inside expressions (conditions, arguments)
+    ehelpers = {}
+    for (cls, name), fd in helpers.items():
+        if not cls:
+            h = _expr_helper(fd)
+            if h:
+                ehelpers[name] = h
+    if ehelpers:
+        def apply_e(body):
+            for i, n in enumerate(body):
+                if isinstance(n, ast.ClassDef):
+                    apply_e(n.body)
+                elif isinstance(n, ast.FunctionDef) and \
+                        n.name not in ehelpers:
+                    ei = _Inline(ehelpers)
+                    body[i] = ei.visit(n)
+                    inl.count += ei.count
+        apply_e(tree.body)
     # a helper whose every use was inlined no longer exists as a function
     # of its own: its statements are analysed where they run
     if inl.count:
